@@ -290,6 +290,17 @@ def gen_spec(rng, profile=None, uid=None):
             if not cb["async"]:
                 cb["script"].pop("sends", None)
     allow = P["allow"] if P["allow"] is not None else (rng.random() < 0.3)
+    # guards of a transition written as ONE boolean expression (g1 and g2 and not u1) instead of
+    # cond=[...] / unless=[...] lists: same meaning, other code path (decided again at render time:
+    # only when every guard has a single provider and none is a coroutine)
+    pj = P.get("p_join_guards", 0.15)
+    for t in trans:
+        if t.get("from_any") is None:
+            t["join_guards"] = len(t["guards"]) >= 2 and rng.random() < pj
+    for d in any_decls:
+        flag = len(d["copies"][0]["guards"]) >= 2 and rng.random() < pj
+        for c in d["copies"]:
+            c["join_guards"] = flag
     states = []
     for k, s in enumerate(sids):
         states.append({"id": s, "initial": s == sids[0], "final": s in finals})
